@@ -13,7 +13,9 @@
 //	<pool>   = n,shared,ammo,tokens,fault,k,gate,ctxret
 //	           n instances (startup once(n)); shared 1 = one RPS schedule for the pool, 0 = per instance;
 //	           ammo = number of ammo (-1 endless); tokens = once(tokens) (-1 = unlimited 1h schedule);
-//	           fault = none|prov|aggr|gun|warm|sched|bind|panic|provnil|aggrnil at position k;
+//	           fault = none|prov|aggr|gun|warm|sched|bind|panic|provnil|aggrnil at position k, or a REAL provider:
+//	           dopen|dopenlate|ddecode|dok|jsonbad|httpbad (see realProvider);
+//	           optional 9th field: the VALUE of the prov/aggr error (plain|wdeadline|wcancel|fmtcancel|nettimeout|joined);
 //	           gate 1 = provider/aggregator fail only once their context is cancelled
 //	           ("after all instances finished"); ctxret 1 = provider/aggregator return ctx.Err() on cancel.
 //
@@ -32,6 +34,8 @@ import (
 	"context"
 	"errors"
 	"fmt"
+	"io"
+	"net"
 	"runtime"
 	"strconv"
 	"strings"
@@ -39,8 +43,14 @@ import (
 	"sync/atomic"
 	"time"
 
+	pkgerrors "github.com/pkg/errors"
+	"github.com/spf13/afero"
+	phttp "github.com/yandex/pandora/components/providers/http"
+	phttpconf "github.com/yandex/pandora/components/providers/http/config"
 	"github.com/yandex/pandora/core"
+	"github.com/yandex/pandora/core/datasource"
 	"github.com/yandex/pandora/core/engine"
+	"github.com/yandex/pandora/core/provider"
 	"github.com/yandex/pandora/core/schedule"
 	"github.com/yandex/pandora/core/warmup"
 	"github.com/yandex/pandora/lib/monitoring"
@@ -62,6 +72,31 @@ var (
 
 const panicText = "verif: shoot panicked"
 
+type netTimeout struct{}
+
+func (netTimeout) Error() string   { return "i/o timeout" }
+func (netTimeout) Timeout() bool   { return true }
+func (netTimeout) Temporary() bool { return true }
+
+// faultErr builds the error VALUE a failing provider/aggregator returns. Whatever its shape, it is a
+// failure of the component itself (its message says so), not the cancellation of the context it was given.
+func faultErr(base error, ev string) error {
+	msg := base.Error()
+	switch ev {
+	case "wdeadline": // the component's OWN deadline (e.g. a flush timeout), pkg/errors cause = DeadlineExceeded
+		return pkgerrors.WithMessage(context.DeadlineExceeded, msg)
+	case "wcancel": // the component's own Canceled, returned while the context it was given is NOT done
+		return pkgerrors.WithMessage(context.Canceled, msg)
+	case "fmtcancel": // wraps Canceled with %w: errors.Is says Canceled, pkg/errors.Cause does not
+		return fmt.Errorf("%s: %w", msg, context.Canceled)
+	case "nettimeout":
+		return pkgerrors.WithMessage(&net.OpError{Op: "write", Net: "tcp", Err: netTimeout{}}, msg)
+	case "joined":
+		return errors.Join(base, errors.New("verif: and a second error"))
+	}
+	return base
+}
+
 type poolPlan struct {
 	n      int
 	shared bool
@@ -71,12 +106,17 @@ type poolPlan struct {
 	k      int
 	gate   bool
 	ctxret bool
+	ev     string // the VALUE of the provider/aggregator error: plain|wdeadline|wcancel|fmtcancel|nettimeout|joined
 }
 
 func parsePool(s string) poolPlan {
 	f := strings.Split(s, ",")
 	at := func(i int) int { v, _ := strconv.Atoi(f[i]); return v }
-	return poolPlan{n: at(0), shared: f[1] == "1", ammo: at(2), tokens: at(3), fault: f[4], k: at(5), gate: f[6] == "1", ctxret: f[7] == "1"}
+	pl := poolPlan{n: at(0), shared: f[1] == "1", ammo: at(2), tokens: at(3), fault: f[4], k: at(5), gate: f[6] == "1", ctxret: f[7] == "1", ev: "plain"}
+	if len(f) > 8 {
+		pl.ev = f[8]
+	}
+	return pl
 }
 
 // shared per-run state
@@ -106,17 +146,19 @@ func (p *mockProvider) Run(ctx context.Context, _ core.ProviderDeps) error {
 		return nil // finished reading its source; Acquire goes on serving the buffered ammo
 	}
 	if isFault && !p.plan.gate && p.plan.k == 0 {
-		p.mu.Lock()
-		p.failed = true
-		p.mu.Unlock()
+		if p.plan.ev != "wcancel" { // wcancel: goes on serving ammo, so that the run context is certainly not done yet
+			p.mu.Lock()
+			p.failed = true
+			p.mu.Unlock()
+		}
 		p.pm.fault("prov")
-		return errProv
+		return faultErr(errProv, p.plan.ev)
 	}
 	select {
 	case <-ctx.Done():
 		if isFault && p.plan.gate {
 			p.pm.fault("prov")
-			return errProv
+			return faultErr(errProv, p.plan.ev)
 		}
 		if p.plan.ctxret {
 			return ctx.Err()
@@ -124,7 +166,7 @@ func (p *mockProvider) Run(ctx context.Context, _ core.ProviderDeps) error {
 		return nil
 	case <-p.trigger:
 		p.pm.fault("prov")
-		return errProv
+		return faultErr(errProv, p.plan.ev)
 	}
 }
 
@@ -144,6 +186,102 @@ func (p *mockProvider) Acquire() (core.Ammo, bool) {
 
 func (p *mockProvider) Release(core.Ammo) {}
 
+// ---- real providers as components ----
+
+var errOpen = errors.New("verif: data source open failed")
+var errDecode = errors.New("verif: ammo decode failed")
+
+type failingSource struct{ delay time.Duration }
+
+func (f failingSource) OpenSource() (io.ReadCloser, error) {
+	time.Sleep(f.delay)
+	return nil, errOpen
+}
+
+type countingDecoder struct {
+	n      int
+	good   int  // items decoded fine
+	failAt bool // then: an error (true) or io.EOF (false)
+}
+
+func (d *countingDecoder) Decode(core.Ammo) error {
+	if d.n >= d.good {
+		if d.failAt {
+			return errDecode
+		}
+		return io.EOF
+	}
+	d.n++
+	return nil
+}
+
+// reportingProvider logs the ground truth "this provider failed" when the real provider's Run returns an error
+// that is not the cancellation of the context it was given.
+type reportingProvider struct {
+	core.Provider
+	pm *poolMocks
+}
+
+func (r reportingProvider) Run(ctx context.Context, deps core.ProviderDeps) error {
+	err := r.Provider.Run(ctx, deps)
+	if err != nil && !(ctx.Err() != nil && pkgerrors.Cause(err) == ctx.Err()) {
+		r.pm.fault("prov")
+	}
+	return err
+}
+
+type anAmmo struct {
+	A int `json:"a"`
+}
+
+// realProvider builds the real provider a plan asks for (nil: the plan uses the mock provider):
+//
+//	dopen / dopenlate  provider.DecodeProvider whose DataSource fails to open (at once / 30 ms later, when the
+//	                   instances are already blocked in Acquire)
+//	ddecode / dok      DecodeProvider whose decoder fails / reports EOF after k items
+//	jsonbad            provider.NewJSONProvider on k good objects followed by garbage
+//	httpbad            the http provider (jsonline decoder) on a file with k good lines and a broken one
+func realProvider(pm *poolMocks, pl poolPlan) core.Provider {
+	newAmmo := func() core.Ammo { return &anAmmo{} }
+	dconf := provider.DefaultDecodeProviderConfig()
+	dconf.Passes = 1
+	dec := func(d *countingDecoder) provider.NewAmmoDecoder {
+		return func(core.ProviderDeps, io.Reader) (provider.AmmoDecoder, error) { return d, nil }
+	}
+	var inner core.Provider
+	switch pl.fault {
+	case "dopen":
+		dconf.Source = failingSource{}
+		inner = provider.NewDecodeProvider(newAmmo, dec(&countingDecoder{}), dconf)
+	case "dopenlate":
+		dconf.Source = failingSource{delay: 30 * time.Millisecond}
+		inner = provider.NewDecodeProvider(newAmmo, dec(&countingDecoder{}), dconf)
+	case "ddecode":
+		dconf.Source = datasource.NewString("x")
+		inner = provider.NewDecodeProvider(newAmmo, dec(&countingDecoder{good: pl.k, failAt: true}), dconf)
+	case "dok":
+		dconf.Source = datasource.NewString("x")
+		inner = provider.NewDecodeProvider(newAmmo, dec(&countingDecoder{good: pl.k}), dconf)
+	case "jsonbad":
+		jc := provider.DefaultJSONProviderConfig()
+		jc.Decode.Passes = 1
+		jc.Decode.Source = datasource.NewString(strings.Repeat("{\"a\":1}\n", pl.k) + "{\"a\": broken")
+		inner = provider.NewJSONProvider(newAmmo, jc)
+	case "httpbad":
+		fs := afero.NewMemMapFs()
+		line := "{\"host\":\"h\",\"method\":\"GET\",\"uri\":\"/\",\"tag\":\"t\",\"headers\":{}}\n"
+		_ = afero.WriteFile(fs, "ammo.jsonline", []byte(strings.Repeat(line, pl.k)+"{\"host\": broken\n"), 0o644)
+		p, err := phttp.NewProvider(fs, phttpconf.Config{Decoder: phttpconf.DecoderJSONLine, File: "ammo.jsonline", Passes: 1})
+		if err != nil {
+			panic(err)
+		}
+		inner = p
+	default:
+		return nil
+	}
+	return reportingProvider{Provider: inner, pm: pm}
+}
+
 // ---- aggregator ----
 
 type mockAggregator struct {
@@ -162,13 +300,13 @@ func (a *mockAggregator) Run(ctx context.Context, _ core.AggregatorDeps) error {
 	}
 	if isFault && !a.plan.gate && a.plan.k == 0 {
 		a.pm.fault("aggr")
-		return errAggr
+		return faultErr(errAggr, a.plan.ev)
 	}
 	select {
 	case <-ctx.Done():
 		if isFault && a.plan.gate {
 			a.pm.fault("aggr")
-			return errAggr
+			return faultErr(errAggr, a.plan.ev)
 		}
 		if a.plan.ctxret {
 			return ctx.Err()
@@ -176,7 +314,7 @@ func (a *mockAggregator) Run(ctx context.Context, _ core.AggregatorDeps) error {
 		return nil
 	case <-a.trigger:
 		a.pm.fault("aggr")
-		return errAggr
+		return faultErr(errAggr, a.plan.ev)
 	}
 }
 
@@ -281,11 +419,10 @@ func classify(err error) string {
 	switch {
 	case err == nil:
 		return "nil"
-	case errors.Is(err, context.Canceled) || errors.Is(err, context.DeadlineExceeded):
-		return "ctx"
-	case errors.Is(err, errProv):
+	// a failure of a component says so in its message, whatever the error wraps
+	case strings.Contains(err.Error(), errProv.Error()):
 		return "f.prov"
-	case errors.Is(err, errAggr):
+	case strings.Contains(err.Error(), errAggr.Error()):
 		return "f.aggr"
 	case errors.Is(err, errGun):
 		return "f.gun"
@@ -299,8 +436,26 @@ func classify(err error) string {
 		return "f.panic"
 	case strings.Contains(err.Error(), "Out of ammo"):
 		return "ooa"
+	// the engine's own wrappers around what Provider.Run / Aggregator.Run returned (real components)
+	case strings.Contains(err.Error(), "provider failed"):
+		return "f.prov"
+	case strings.Contains(err.Error(), "aggregator failed"):
+		return "f.aggr"
+	case pkgerrors.Cause(err) == context.Canceled || err == context.Canceled:
+		return "ctx"
 	}
 	return "f.other"
+}
+
+// classifyComp classifies what a provider ("prov") / aggregator ("aggr") returned from Run, as logged by the
+// await loop: nil, the cancellation of its context (pkg/errors cause is context.Canceled and the error is not one
+// of the mocks' own failures), or a failure of that component.
+func classifyComp(err error, comp string) string {
+	c := classify(err)
+	if strings.HasPrefix(c, "f.") || c == "ooa" {
+		return "f." + comp
+	}
+	return c
 }
 
 func fieldErr(e observer.LoggedEntry) error {
@@ -401,9 +556,9 @@ func history(all []observer.LoggedEntry, npools int, plans []poolPlan) []string 
 			preDone[pp] = true
 			out = append(out, fmt.Sprintf("%d.pre.%s", pp, fieldStr(e, "what")))
 		case "AmmoQueue awaited":
-			emit(fmt.Sprintf("%d.P.%s", p, classify(fieldErr(e))))
+			emit(fmt.Sprintf("%d.P.%s", p, classifyComp(fieldErr(e), "prov")))
 		case "Aggregator awaited":
-			emit(fmt.Sprintf("%d.A.%s", p, classify(fieldErr(e))))
+			emit(fmt.Sprintf("%d.A.%s", p, classifyComp(fieldErr(e), "aggr")))
 		case "Instances start awaited":
 			emit(fmt.Sprintf("%d.S.%d.%s", p, fieldInt(e, "started"), classify(fieldErr(e))))
 		case "Instance run awaited":
@@ -461,8 +616,12 @@ func runCase(line string) string {
 		idx := i
 		prov := &mockProvider{pm: pm, plan: pl, trigger: make(chan struct{})}
 		aggr := &mockAggregator{pm: pm, plan: pl, trigger: make(chan struct{})}
+		var provComp core.Provider = prov
+		if rp := realProvider(pm, pl); rp != nil {
+			provComp = rp
+		}
 		pc := engine.InstancePoolConfig{
-			Provider:        prov,
+			Provider:        provComp,
 			Aggregator:      aggr,
 			RPSPerInstance:  !pl.shared,
 			StartupSchedule: schedule.NewOnce(int64(pl.n)),
@@ -555,7 +714,11 @@ func runCase(line string) string {
 // ---- generator ----
 
 func poolStr(p poolPlan) string {
-	return fmt.Sprintf("%d,%s,%d,%d,%s,%d,%s,%s", p.n, vh.B(p.shared), p.ammo, p.tokens, p.fault, p.k, vh.B(p.gate), vh.B(p.ctxret))
+	s := fmt.Sprintf("%d,%s,%d,%d,%s,%d,%s,%s", p.n, vh.B(p.shared), p.ammo, p.tokens, p.fault, p.k, vh.B(p.gate), vh.B(p.ctxret))
+	if p.ev != "" && p.ev != "plain" {
+		s += "," + p.ev
+	}
+	return s
 }
 
 func gen(r *vh.Rand, tier string) []string {
@@ -641,6 +804,41 @@ func gen(r *vh.Rand, tier string) []string {
 		for i := 0; i < 24; i++ {
 			p := poolPlan{n: r.Range(1, 3), shared: true, ammo: r.Range(1, 6), tokens: r.Range(1, 6), fault: r.Pick([]string{"prov", "aggr"}), gate: true, ctxret: r.Bool()}
 			out = append(out, "run none "+poolStr(p))
+		}
+		// the VALUE of the failing component's error varies, at every position incl. after all instances finished
+		for _, ft := range []string{"prov", "aggr"} {
+			for _, ev := range []string{"wdeadline", "fmtcancel", "nettimeout", "joined"} {
+				for pos := 0; pos < 3; pos++ {
+					p := poolPlan{n: r.Range(1, 3), shared: r.Bool(), ammo: 8, tokens: r.Range(2, 6), fault: ft, ctxret: r.Bool(), ev: ev}
+					switch pos {
+					case 1:
+						p.k = r.Range(1, 3)
+					case 2:
+						p.gate = true
+					}
+					line := "run none " + poolStr(p)
+					if r.Chance(1, 3) {
+						line += " " + poolStr(healthy)
+					}
+					out = append(out, line)
+					if pos == 2 { // the after-all-finished position once more
+						out = append(out, "run none "+poolStr(p))
+					}
+				}
+			}
+			// the component's own Canceled while the context it was given is not done: a failure
+			out = append(out, "run none "+poolStr(poolPlan{n: 2, shared: true, ammo: -1, tokens: -1, fault: ft, ev: "wcancel"}))
+		}
+		// real providers as components
+		for _, ft := range []string{"dopen", "dopenlate", "ddecode", "dok", "jsonbad", "httpbad"} {
+			for _, k := range []int{0, 2} {
+				p := poolPlan{n: r.Range(1, 3), shared: r.Bool(), ammo: 0, tokens: r.Range(3, 6), fault: ft, k: k}
+				line := "run " + r.Pick([]string{"none", "none", "after"}) + " " + poolStr(p)
+				if r.Chance(1, 3) {
+					line += " " + poolStr(healthy)
+				}
+				out = append(out, line)
+			}
 		}
 		// random plans
 		nr := 40
